@@ -769,3 +769,16 @@ def m_str_starts_with(engine, ctx, args, callee, frame):
 @model(r"^(std::string::)?String::(as_str|as_mut_str)$|^<(std::string::)?String as (std::ops::)?Deref>::deref$|^(std::string::)?String::as_bytes$|^core::str::<impl str>::as_bytes$|^<(std::string::)?String as AsRef<(str|\[u8\])>>::as_ref$|^<str as AsRef<(str|\[u8\])>>::as_ref$")
 def m_string_as_str(engine, ctx, args, callee, frame):
     return Ref(deref_cell(args[0]))
+
+
+@model(r"^<.* as ToString>::to_string$", generic=True)
+def m_opaque_to_string(engine, ctx, args, callee, frame):
+    """to_string of a value of an external text format that was obtained by parsing: the text it was parsed from
+    (the same parse/print-inverse assumption as everywhere else for url, urn, ...)"""
+    v = deref(args[0])
+    if isinstance(v, Opaque) and isinstance(v.payload, Bytes):
+        return v.payload
+    fn = engine.program.resolve(callee, frame.fn if frame else None)
+    if fn is not None:
+        return engine.run_fn(fn, args)
+    raise Untranslatable("call " + callee)
